@@ -393,6 +393,7 @@ func genPk(g *core.Gen) {
 // ---------------------------------------------------------------- endpoints (real handshake, scripted input)
 
 type epCfg struct {
+	flags       string // optional "+flags" of the role token
 	role, magic string
 	pre, seed   []byte
 	gLen        int
@@ -406,9 +407,25 @@ func joinOr(ss []string, sep string) string {
 	return strings.Join(ss, sep)
 }
 
+func (c epCfg) roleTok() string {
+	if c.flags != "" {
+		return c.role + "+" + c.flags
+	}
+	return c.role
+}
+
+func (c epCfg) flag(f string) epCfg { c.flags = f; return c }
+
+// line emits the case. The endpoint is run once here (handshake only) to read back the choices
+// BIP324 leaves to the sender: its private key / ElligatorSwift encoding, the garbage bytes and
+// the decoy contents; they go on the line as <priv> <handshake bytes written>.
 func (c epCfg) line(inp []byte, acts []string) string {
-	return fmt.Sprintf("C19 ep %s %s %s %s %d %s %s %s", c.role, c.magic, hx(c.pre), hx(c.seed), c.gLen,
-		joinOr(c.decoys, ","), hx(inp), joinOr(acts, ";"))
+	func() {
+		defer func() { recover() }()
+		runEp(c.roleTok(), c.magic, c.pre, c.seed, c.gLen, c.decoys, inp, nil)
+	}()
+	return fmt.Sprintf("C19 ep %s %s %s %s %d %s %s %s %s %s", c.roleTok(), c.magic, hx(c.pre), hx(c.seed), c.gLen,
+		joinOr(c.decoys, ","), hx(inp), joinOr(acts, ";"), hx(lastPriv), hx(lastHs))
 }
 
 // written runs the real endpoint to record what it writes. A panic of the code
@@ -420,7 +437,7 @@ func (c epCfg) written(inp []byte, acts []string) (w []byte) {
 			w = nil
 		}
 	}()
-	_, w = runEp(c.role, c.magic, c.pre, c.seed, c.gLen, c.decoys, inp, acts)
+	_, w = runEp(c.roleTok(), c.magic, c.pre, c.seed, c.gLen, c.decoys, inp, acts)
 	return w
 }
 
@@ -533,31 +550,27 @@ func genEp(g *core.Gen) {
 	// every option a caller can pass: responder admission (rejecting the first / second CPU phase,
 	// admitting, admitting with a nil release), an installed logger, a different network argument
 	// in the second call (configuration changes between the two handshake calls)
-	withFlags := func(line, flags string) string {
-		f := strings.SplitN(line, " ", 4)
-		return f[0] + " " + f[1] + " " + f[2] + "+" + flags + " " + f[3]
-	}
 	for i := 0; i < g.N(2, 40); i++ {
 		s := mk(-1, -1, r.Intn(3), 0)
-		la := s.a.line(s.wb, append(sendActs(s.pa), recvActs(s.pb, 0)...))
-		lb := s.b.line(s.wa, append(sendActs(s.pb), recvActs(s.pa, 0)...))
+		actsA := append(sendActs(s.pa), recvActs(s.pb, 0)...)
+		actsB := append(sendActs(s.pb), recvActs(s.pa, 0)...)
 		for _, a := range []string{"A1", "A2", "A3", "A4"} {
-			kase(g, "ep-admission-responder", true, withFlags(lb, a))
+			kase(g, "ep-admission-responder", true, s.b.flag(a).line(s.wa, actsB))
 		}
-		kase(g, "ep-admission-initiator", true, withFlags(la, "A"+fmt.Sprint(1+r.Intn(4))))
-		kase(g, "ep-logger", true, withFlags(la, "L"))
-		kase(g, "ep-logger", true, withFlags(lb, "L,A4"))
+		kase(g, "ep-admission-initiator", true, s.a.flag("A"+fmt.Sprint(1+r.Intn(4))).line(s.wb, actsA))
+		kase(g, "ep-logger", true, s.a.flag("L").line(s.wb, actsA))
+		kase(g, "ep-logger", true, s.b.flag("L,A4").line(s.wa, actsB))
 		other := pickMagic(r)
-		kase(g, "ep-net-changes-between-calls", true, withFlags(la, "N"+other))
-		kase(g, "ep-net-changes-between-calls", true, withFlags(lb, "N"+other))
+		kase(g, "ep-net-changes-between-calls", true, s.a.flag("N"+other).line(s.wb, actsA))
+		kase(g, "ep-net-changes-between-calls", true, s.b.flag("N"+other).line(s.wa, actsB))
 		// admission on the paths that stop early
 		c := randEp(r, "r", s.a.magic)
 		v1 := append(unhx(fmt.Sprintf("%08s", c.magic)), []byte("version\x00\x00\x00\x00\x00")...)
 		v1[0], v1[1], v1[2], v1[3] = v1[3], v1[2], v1[1], v1[0]
-		kase(g, "ep-admission-v1", true, withFlags(c.line(append(v1, r.Bytes(30)...), nil), "A"+fmt.Sprint(1+r.Intn(4))))
-		kase(g, "ep-admission-short", true, withFlags(c.line(take(s.wa, 20+r.Intn(40)), nil), "A"+fmt.Sprint(2+r.Intn(3))))
+		kase(g, "ep-admission-v1", true, c.flag("A"+fmt.Sprint(1+r.Intn(4))).line(append(v1, r.Bytes(30)...), nil))
+		kase(g, "ep-admission-short", true, c.flag("A"+fmt.Sprint(2+r.Intn(3))).line(take(s.wa, 20+r.Intn(40)), nil))
 		c.gLen = 4096
-		kase(g, "ep-admission-garbage-too-large", true, withFlags(c.line(s.wa, nil), "A4"))
+		kase(g, "ep-admission-garbage-too-large", true, c.flag("A4").line(s.wa, nil))
 	}
 	// long sessions: >= 700 packets each way (3 rekeys)
 	for i := 0; i < g.N(1, 8); i++ {
